@@ -55,6 +55,11 @@ CHECKS = {
     technique="TLA+ spec RpycHostile: response table Expect(template, abstract state) over ~1500 hostile message templates (every handler number, every argument label incl. forged/stale/other-connection identifiers, wrong arity, crafted reply and exception payloads, invalid message kinds) with TLC-checked meta-properties and a TLC-checked attack state machine; every (template, reachable state) pair sent as raw bytes by a frame-level peer to a real Connection in virtual time with canary / import / pickle / foreign-object / second-connection oracles",
     text="the finite template space is decided by the specification (permitted response classes per state) and executed exhaustively against the real dispatcher under the default configuration; after every message: response class permitted, no canary callable ran, no denied attribute read, nothing pickled, no module imported, no constructor run by the exception loader, requests aimed at objects not handed to this peer never answered with a result, the process's other connection untouched; random 12-message sequences follow the state machine",
     note="default configuration; well-framed messages only; resource exhaustion out of scope; the attacker never answers the service's own requests (virtual-time timeouts)"),
+ "C09": dict(
+    spec="RpycVinegar", design="5/C09",
+    technique="TLA+ spec RpycVinegar: outcome table (class category x argument shape x attribute shape x sender switches x receiver switches) evaluated and exported by TLC with its safety meta-properties as ASSUMEs; every case refined to concrete exceptions (all built-in exception classes) and pushed through vinegar.dump -> brine -> vinegar.load and through real connection pairs; crafted records checked for imports / constructors",
+    text="the complete switch matrix is decided by the specification and executed with every built-in exception class of the interpreter as representative, comparing class, isinstance, args, attributes, traceback/version disclosure, sys.modules delta and constructor canaries; the two exception-group classes that cannot be rebuilt on Python 3.11+ are a recorded known finding",
+    note="KeyboardInterrupt is routed locally by default and not sent; classes with mandatory constructor arguments are built with fixed arguments"),
 }
 NA = {}
 
